@@ -27,46 +27,46 @@ type ptrObj struct{ a int }
 func (p *ptrObj) MarshalZerologObject(e *zerolog.Event) { e.Int("a", p.a).Str("b", "x") }
 
 var (
-	vStrs    = []string{"a", "b"}
-	vBytes   = []byte("bytes")
-	vBools   = []bool{true, false}
-	vInts    = []int{1, -2}
-	vInts8   = []int8{1, -2}
-	vInts16  = []int16{1, -2}
-	vInts32  = []int32{1, -2}
-	vInts64  = []int64{1, -2}
-	vUints   = []uint{1, 2}
-	vUints8  = []uint8{1, 2}
-	vUints16 = []uint16{1, 2}
-	vUints32 = []uint32{1, 2}
-	vUints64 = []uint64{1, 2}
-	vF32s    = []float32{1.5, 2.25}
-	vF64s    = []float64{1.5, 1e21}
-	vTime    = time.Date(2020, 1, 2, 3, 4, 5, 6, time.UTC)
-	vTimes   = []time.Time{vTime, vTime}
-	vDurs    = []time.Duration{time.Second, 3}
-	vErr     = errors.New("plain error")
-	vObj     = &ptrObj{7}
-	vRaw     = []byte(`{"r":1}`)
+	vStrs                = []string{"a", "b"}
+	vBytes               = []byte("bytes")
+	vBools               = []bool{true, false}
+	vInts                = []int{1, -2}
+	vInts8               = []int8{1, -2}
+	vInts16              = []int16{1, -2}
+	vInts32              = []int32{1, -2}
+	vInts64              = []int64{1, -2}
+	vUints               = []uint{1, 2}
+	vUints8              = []uint8{1, 2}
+	vUints16             = []uint16{1, 2}
+	vUints32             = []uint32{1, 2}
+	vUints64             = []uint64{1, 2}
+	vF32s                = []float32{1.5, 2.25}
+	vF64s                = []float64{1.5, 1e21}
+	vTime                = time.Date(2020, 1, 2, 3, 4, 5, 6, time.UTC)
+	vTimes               = []time.Time{vTime, vTime}
+	vDurs                = []time.Duration{time.Second, 3}
+	vErr                 = errors.New("plain error")
+	vObj                 = &ptrObj{7}
+	vRaw                 = []byte(`{"r":1}`)
 	vType    interface{} = 42
 	vIP                  = net.IP{10, 0, 0, 1}
 )
 
 var (
-	vEsc        = "q\"uote\\ back\nnew\ttab \x01ctl é😀 \xff invalid and then some more plain text"
-	vLong       = strings.Repeat("long plain text ", 12)
-	vStrsEsc    = []string{vEsc, "a\"b", "plain"}
-	vBytesEsc   = []byte(vEsc)
-	vBytesLong  = []byte(strings.Repeat("0123456789abcdef", 6))
-	vErrEsc     = errors.New(vEsc)
-	vRawLong    = []byte(`{"r":[1,2,3,{"x":"` + strings.Repeat("y", 80) + `"}]}`)
-	vTimeZone   = time.Date(2021, 3, 4, 5, 6, 7, 123456789, time.FixedZone("X", 3*3600+1800))
-	vTimesZone  = []time.Time{vTimeZone, vTime}
-	vF32sExp    = []float32{1e-30, 3e30, 0.1}
-	vIntsLong   = []int{-9223372036854775808, 9223372036854775807, 0, 1, 2, 3, 4, 5, 6, 7, 8, 9, 10, 11, 12, 13, 14, 15, 16, 17, 18, 19, 20, 21, 22, 23, 24, 25}
-	vU64Big     = []uint64{1 << 63, 18446744073709551615}
-	vDursMany   = []time.Duration{1, -1, time.Hour, 1500 * time.Microsecond, 0}
-	vObjNested  = &nestedObj{}
+	vEsc       = "q\"uote\\ back\nnew\ttab \x01ctl é😀 \xff invalid and then some more plain text"
+	vLong      = strings.Repeat("long plain text ", 12)
+	vStrsEsc   = []string{vEsc, "a\"b", "plain"}
+	vBytesEsc  = []byte(vEsc)
+	vBytesLong = []byte(strings.Repeat("0123456789abcdef", 6))
+	vErrEsc    = errors.New(vEsc)
+	vRawLong   = []byte(`{"r":[1,2,3,{"x":"` + strings.Repeat("y", 80) + `"}]}`)
+	vTimeZone  = time.Date(2021, 3, 4, 5, 6, 7, 123456789, time.FixedZone("X", 3*3600+1800))
+	vTimesZone = []time.Time{vTimeZone, vTime}
+	vF32sExp   = []float32{1e-30, 3e30, 0.1}
+	vIntsLong  = []int{-9223372036854775808, 9223372036854775807, 0, 1, 2, 3, 4, 5, 6, 7, 8, 9, 10, 11, 12, 13, 14, 15, 16, 17, 18, 19, 20, 21, 22, 23, 24, 25}
+	vU64Big    = []uint64{1 << 63, 18446744073709551615}
+	vDursMany  = []time.Duration{1, -1, time.Hour, 1500 * time.Microsecond, 0}
+	vObjNested = &nestedObj{}
 )
 
 type nestedObj struct{}
@@ -290,6 +290,47 @@ func main() {
 		measure(lc, nil, false, 0)
 		measure(lc, nil, false, 1)
 	}
+	// global format settings: every single deviation x every single method (event and array element):
+	// the fast path must not depend on the default layout / unit / precision / field names
+	type setting struct {
+		name       string
+		set, unset func()
+	}
+	settings := []setting{}
+	for _, f := range []string{time.RFC1123, time.Kitchen, time.RFC3339Nano, "2006-01-02 15:04:05.000 MST", zerolog.TimeFormatUnix, zerolog.TimeFormatUnixMs, zerolog.TimeFormatUnixMicro, zerolog.TimeFormatUnixNano} {
+		f := f
+		settings = append(settings, setting{"TimeFieldFormat=" + f, func() { zerolog.TimeFieldFormat = f }, func() { zerolog.TimeFieldFormat = time.RFC3339 }})
+	}
+	settings = append(settings,
+		setting{"DurationFieldUnit=s", func() { zerolog.DurationFieldUnit = time.Second }, func() { zerolog.DurationFieldUnit = time.Millisecond }},
+		setting{"DurationFieldInteger", func() { zerolog.DurationFieldInteger = true }, func() { zerolog.DurationFieldInteger = false }},
+		setting{"FloatingPointPrecision=3", func() { zerolog.FloatingPointPrecision = 3 }, func() { zerolog.FloatingPointPrecision = -1 }},
+		setting{"field names", func() {
+			zerolog.TimestampFieldName, zerolog.LevelFieldName, zerolog.MessageFieldName, zerolog.ErrorFieldName = "@t\"", "", "m\n", "err\\"
+		}, func() {
+			zerolog.TimestampFieldName, zerolog.LevelFieldName, zerolog.MessageFieldName, zerolog.ErrorFieldName = "time", "level", "message", "error"
+		}},
+	)
+	saveL, saveLcs, saveBuild := L, lcs, build
+	L = 1
+	for _, st := range settings {
+		st.set()
+		build = saveBuild + "|" + st.name
+		// loggers are rebuilt under the setting (Context.Timestamp and level hooks read the globals when they run)
+		lcs = nil
+		for _, on := range []bool{true, false} {
+			lvl, sfx := zerolog.TraceLevel, "/enabled"
+			if !on {
+				lvl, sfx = zerolog.ErrorLevel, "/filtered"
+			}
+			lcs = append(lcs, lcfg{"context+timestamp" + sfx, zerolog.New(w).With().Str("c", "ctx").Timestamp().Logger().Level(lvl), on})
+		}
+		rec(nil, false)
+		rec(nil, true)
+		st.unset()
+	}
+	L, lcs, build = saveL, saveLcs, saveBuild
+	r.Count("settings:"+build, int64(len(settings)))
 	r.Sample(build + ` build, logger context/enabled: Info().Dict("k", Dict().Str("a","b").Int("c",1)).Time("k", t).Send() -> 0 allocs`)
 	r.Count("methods:"+build, int64(len(ms)))
 	if child {
